@@ -68,6 +68,11 @@ type rigOpts struct {
 	realMon        bool
 	ttlPast        bool
 	history        bool
+	// expireDuring: the monitor answers 2s late and an "expired" metric is
+	// one that is still good when the monitor compiles its answer and has
+	// run out when the allocator ranks the candidates (TTL 1s, logged right
+	// before every case)
+	expireDuring bool
 }
 
 // deadInf is an informer whose own metric is never usable (the real monitor
@@ -135,6 +140,9 @@ func newRig(t *testing.T, o rigOpts) *rig {
 		parts.Informers = []ipfscluster.Informer{deadInf{}}
 	} else {
 		r.mon = clus.NewMon()
+		if o.expireDuring {
+			r.mon.LatestDelay = 2 * time.Second
+		}
 		parts.Monitor = r.mon
 	}
 	p, err := clus.NewPeer(ctx, parts)
@@ -162,14 +170,37 @@ func (r *rig) stop() {
 }
 
 // every metric the harness itself handed to the monitor
-var harnessMetrics = map[*api.Metric]bool{}
+var harnessMetrics sync.Map // *api.Metric -> true
 
 func (r *rig) logMetric(m *api.Metric) {
-	harnessMetrics[m] = true
+	harnessMetrics.Store(m, true)
 	if r.mon != nil {
 		r.mon.LogMetric(r.ctx, m)
 	} else {
 		r.rmon.LogMetric(r.ctx, m)
+	}
+}
+
+// skipCase: cases a section deliberately leaves out (see expireDuringUnits).
+func skipCase(o rigOpts, c Case) bool {
+	if o.expireDuring {
+		for _, p := range c.Cur {
+			if c.St[p] == stExpired {
+				return true
+			}
+		}
+	}
+	return false
+}
+
+// refreshExpiring logs, for every peer whose state is "expired", a metric that
+// is good now and for one more second: it passes the (slow) monitor's check
+// and has expired when its answer arrives.
+func (r *rig) refreshExpiring(n int) {
+	for i := 0; i < n && i < len(r.curSt); i++ {
+		if r.curSt[i] == stExpired {
+			r.logMetric(r.mkMetric(i, r.bait(), true, time.Second))
+		}
 	}
 }
 
@@ -234,6 +265,9 @@ func (r *rig) installMetrics(n int, st []int, nonnum string) {
 		case stAbsent:
 			continue
 		case stExpired:
+			if r.opts.expireDuring {
+				continue // logged by refreshExpiring right before every case
+			}
 			if r.ttlPast {
 				m = r.mkMetric(i, r.bait(), true, -time.Second)
 			} else {
@@ -259,7 +293,7 @@ func (r *rig) installMetrics(n int, st []int, nonnum string) {
 	if r.mon != nil {
 		for i := 0; i < maxPeers; i++ {
 			got := r.mon.Store.PeerLatest(metricName, r.pids[i])
-			if got != injected[i] && got != nil && !harnessMetrics[got] {
+			if _, ours := harnessMetrics.Load(got); got != injected[i] && got != nil && !ours {
 				// somebody else wrote the metric: the harness lost control.
 				// (a store that did not keep the injected metric as the
 				// latest one is the code's problem, judged by the oracle)
@@ -440,11 +474,17 @@ func (r *rig) run(c Case) Obs {
 
 // evaluate runs, judges and reports one case; returns the observation.
 func (r *rig) evaluate(sec string, c Case) Obs {
+	if skipCase(r.opts, c) {
+		return Obs{}
+	}
 	if r.dry {
 		r.nDry++
 		return Obs{}
 	}
 	c.NonNum = r.curNN
+	if r.opts.expireDuring {
+		r.refreshExpiring(c.N)
+	}
 	o := r.run(c)
 	r.report(sec, c, o)
 	return o
